@@ -557,6 +557,29 @@ class C14(core.PropertyCheck):
             silence.append("NoSuchClass")
         return {"kind": "merge", "parsed": parsed, "orphan": orphan, "others": others, "silence": silence}
 
+    def gen_store(self, rng):
+        """a mutation history on one PageDatabase: writes, orphan diagnostics, deletes (of stored pages, of keys that only
+        have orphan diagnostics, of keys never seen), re-creation after a delete"""
+        tagbox = [0]
+        files = rng.sample(FILES, rng.randint(2, 5))
+        ops = []
+        for _ in range(rng.randint(1, 10)):
+            r = rng.random()
+            f = rng.choice(files)
+            if r < 0.45:
+                out = f if rng.random() < 0.6 else f"{f}#{rng.randint(0, 1)}"
+                ops.append({"op": "set", "out": out, "src": f, "ds": self.gen_ds(rng, tagbox)})
+            elif r < 0.7:
+                ops.append({"op": "orphan", "k": f, "ds": self.gen_ds(rng, tagbox)})
+            else:
+                k = rng.choice([f, f, f + "#0", "never/seen.txt"])
+                ops.append({"op": "del", "k": k})
+        others = []
+        for _ in range(rng.choice([0, 1, 2])):
+            others.append([[f, self.gen_ds(rng, tagbox)] for f in rng.sample(FILES, rng.randint(0, 3))])
+        classes = sorted({d["c"] for o in ops for d in o.get("ds", [])} | {d["c"] for o in others for _, ds in o for d in ds})
+        return {"kind": "store", "ops": ops, "others": others, "silence": [c for c in classes if rng.random() < 0.25]}
+
     def gen_walk(self, rng):
         tagbox = [0]
 
@@ -704,7 +727,10 @@ class C14(core.PropertyCheck):
         n_walk = budget // 5
         for _ in range(n_walk):
             yield self.gen_walk(rng)
-        for _ in range(budget - n_walk):
+        n_store = budget // 4
+        for _ in range(n_store):
+            yield self.gen_store(rng)
+        for _ in range(budget - n_walk - n_store):
             yield self.gen_merge(rng)
 
     def shrink_candidates(self, case):
@@ -719,6 +745,16 @@ class C14(core.PropertyCheck):
                     c = copy.deepcopy(case)
                     del c["parsed"][i]["ds"][j]
                     yield c
+            return
+        if case["kind"] == "store":
+            for i in range(len(case["ops"])):
+                c = copy.deepcopy(case)
+                del c["ops"][i]
+                yield c
+            for i in range(len(case["others"])):
+                c = copy.deepcopy(case)
+                del c["others"][i]
+                yield c
             return
         if case["kind"] != "e2e":
             return
@@ -769,6 +805,8 @@ class C14(core.PropertyCheck):
             return run_repair(case)
         if kind == "merge":
             return self.run_merge(case)
+        if kind == "store":
+            return self.run_store(case)
         if kind == "walk":
             return self.run_walk(case)
         return run_e2e(case)
@@ -803,6 +841,37 @@ class C14(core.PropertyCheck):
                 "merged": {k.as_posix(): [wire(d, objs[id(d)]) for d in v] for k, v in merged.items()},
                 "filtered": {k.as_posix(): [wire(d, objs[id(d)]) for d in filter_diagnostics(cfg, v)] for k, v in merged.items()}}
 
+    def run_store(self, case):
+        db = PageDatabase()
+        objs, by_tag = {}, {}
+
+        def mk(d):
+            if d["t"] not in by_tag:
+                by_tag[d["t"]] = mk_diag(d["c"], d["l"], d["t"])
+                objs[id(by_tag[d["t"]])] = d["t"]
+            return by_tag[d["t"]]
+        try:
+            for o in case["ops"]:
+                if o["op"] == "set":
+                    src = FileId(o["src"])
+                    db[FileId(o["out"])] = (Page.create(src, o["out"].replace("/", "_"), ""), src, [mk(d) for d in o["ds"]])
+                elif o["op"] == "orphan":
+                    db.set_orphan_diagnostics(FileId(o["k"]), [mk(d) for d in o["ds"]])
+                else:
+                    del db[FileId(o["k"])]
+            others = [{FileId(k): [mk(d) for d in ds] for k, ds in o} for o in case["others"]]
+            merged = db.merge_diagnostics(*others)
+        except Exception as e:
+            return {"exc": type(e).__name__}
+        cfg = ProjectConfig(Path("/nonexistent"), "verif")
+        cfg.silence_diagnostics = set(case["silence"])
+        with db._lock:
+            keys = [k.as_posix() for k in db._parsed]
+            okeys = [k.as_posix() for k in db._orphan_diagnostics]
+        return {"exc": None, "keys": keys, "orphan_keys": okeys,
+                "merged": {k.as_posix(): [wire(d, objs[id(d)]) for d in v] for k, v in merged.items()},
+                "filtered": {k.as_posix(): [wire(d, objs[id(d)]) for d in filter_diagnostics(cfg, v)] for k, v in merged.items()}}
+
     def run_walk(self, case):
         def build(x):
             if x["k"] == "fault":
@@ -834,6 +903,11 @@ class C14(core.PropertyCheck):
             return {"op": "c14.merge", "parsed": [{"out": o["out"], "src": o["src"], "ds": cv(o["ds"])} for o in case["parsed"]],
                     "orphan": [[k, cv(ds)] for k, ds in case["orphan"]],
                     "others": [[[k, cv(ds)] for k, ds in o] for o in case["others"]], "silence": case["silence"]}
+        if case["kind"] == "store":
+            sev = lambda c: int(getattr(sd, c).severity)
+            cv = lambda ds: [{"c": d["c"], "l": d["l"], "s": sev(d["c"]), "t": d["t"]} for d in ds]
+            ops = [dict(o, ds=cv(o["ds"])) if "ds" in o else o for o in case["ops"]]
+            return {"op": "c14.store", "ops": ops, "others": [[[k, cv(ds)] for k, ds in o] for o in case["others"]], "silence": case["silence"]}
         if case["kind"] == "walk":
             def cv(x):
                 if x["k"] == "fault":
@@ -874,6 +948,17 @@ class C14(core.PropertyCheck):
                 return f"merged differs at {ks[:3]}: model {[m.get(k) for k in ks[:1]]} impl {[impl['merged'].get(k) for k in ks[:1]]}"
             f = {k: v for k, v in model["filtered"]}
             if f != impl["filtered"]:
+                return "filtered result differs"
+            return None
+        if case["kind"] == "store":
+            if model["keys"] != impl["keys"] or model["orphan_keys"] != impl["orphan_keys"]:
+                return (f"store after the history differs: model pages {model['keys']} orphan {model['orphan_keys']}; "
+                        f"impl pages {impl['keys']} orphan {impl['orphan_keys']}")
+            m = {k: v for k, v in model["merged"]}
+            if m != impl["merged"]:
+                ks = sorted(set(m) ^ set(impl["merged"])) or [k for k in m if m[k] != impl["merged"][k]]
+                return f"merged after the history differs at {ks[:3]}: model {[m.get(k) for k in ks[:1]]} impl {[impl['merged'].get(k) for k in ks[:1]]}"
+            if {k: v for k, v in model["filtered"]} != impl["filtered"]:
                 return "filtered result differs"
             return None
         if case["kind"] == "walk":
@@ -922,7 +1007,37 @@ class C14(core.PropertyCheck):
             return self.oracle_walk(case, impl)
         if case["kind"] == "repair":
             return self.oracle_repair(case, impl)
+        if case["kind"] == "store":
+            return self.oracle_store(case, impl)
         return self.oracle_e2e(case, impl)
+
+    def oracle_store(self, case, impl):
+        """independent reference: per file, what the producers CURRENTLY say (latest write / orphan per key, deletes forget)"""
+        pages, orphan = {}, {}
+        for o in case["ops"]:
+            if o["op"] == "set":
+                pages[o["out"]] = (o["src"], [d["t"] for d in o["ds"]])
+            elif o["op"] == "orphan":
+                orphan[o["k"]] = [d["t"] for d in o["ds"]]
+            else:
+                pages.pop(o["k"], None)
+                orphan.pop(o["k"], None)
+        want = {}
+        for out, (src, ts) in pages.items():
+            want.setdefault(src, set()).update(ts)
+        for k, ts in orphan.items():
+            want.setdefault(k, set()).update(ts)
+        for o in case["others"]:
+            for k, ds in o:
+                want.setdefault(k, set()).update(d["t"] for d in ds)
+        got = {k: {d["t"] for d in v} for k, v in impl["merged"].items()}
+        for k in sorted(set(want) | set(got)):
+            w, g = want.get(k, set()), got.get(k, set())
+            if g - w:
+                return f"stale: merged diagnostics of {k} hold objects {sorted(g - w)} that no producer currently reports (history of {len(case['ops'])} operations)"
+            if w - g:
+                return f"lost: merged diagnostics of {k} lack objects {sorted(w - g)} that a producer currently reports"
+        return None
 
     def oracle_repair(self, case, impl):
         t = case["target"]
@@ -1079,6 +1194,8 @@ class C14(core.PropertyCheck):
             return "crash:" + desc.split(":")[1].strip()
         if head == "silenced":
             return "silenced:" + desc.split(" ")[1] + ":" + desc.split("through ")[1].split(" ")[0]
+        if head in ("stale", "lost") and case.get("kind") == "store":
+            return f"store-{head}"
         if head in ("stale", "lost"):
             return f"repair-{head}:" + desc.split("delivers ")[1].split(" ")[0] + ":" + case["target"]["type"] + ":" + case["how"]
         if head == "missing":
@@ -1160,6 +1277,8 @@ class C14(core.PropertyCheck):
             return json.dumps(case, sort_keys=True) if impl["seen"] else None
         if case["kind"] == "repair":
             return json.dumps(case, sort_keys=True) if impl["checks"] else None
+        if case["kind"] == "store":
+            return json.dumps(case, sort_keys=True) if any(o["op"] == "del" for o in case["ops"]) else None
         return json.dumps(case, sort_keys=True) if any(ds for _, ds in impl["set"]) or impl["silence"] else None
 
     def branch_tags(self, case, model, impl):
@@ -1174,6 +1293,15 @@ class C14(core.PropertyCheck):
                 tags.append("merge:silenced")
             if len(case["others"]) >= 2:
                 tags.append("merge:two-or-more-others")
+        elif case["kind"] == "store":
+            seen_p, seen_o = set(), set()
+            for o in case["ops"]:
+                if o["op"] == "set":
+                    seen_p.add(o["out"])
+                elif o["op"] == "orphan":
+                    seen_o.add(o["k"])
+                else:
+                    tags.append("store:del-" + ("page" if o["k"] in seen_p else "orphan-only" if o["k"] in seen_o else "unknown-key"))
         elif case["kind"] == "repair":
             tags.append(f"repair:{case['target']['type']}:{case['how']}:{case.get('via', 'disk')}" + (":again" if case.get("again") else ""))
         elif case["kind"] == "e2e":
